@@ -156,54 +156,92 @@ Definition bom_off (f : fp) : Prop := fp_remove_bom f = false \/ fp_started f = 
 
 Definition pcond (B : N) (e : ending) (p : parser) : Prop :=
   sc_inv B (p_sc p) (p_rd p) /\ sc_inv2 B (p_sc p) /\ rd_ending (p_rd p) = e /\ p_first p = false /\ p_sc_nil p = false /\
-  fp_keep_comments (p_fp p) = false /\ fp_err (p_fp p) = false /\ (bom_off (p_fp p) \/ last_state p) /\
-  ((exists o, fits_from B (p_rest p) o) \/ last_state p).
+  fp_keep_comments (p_fp p) = false /\ fp_err (p_fp p) = false /\ (bom_off (p_fp p) \/ last_state p).
 
 (* the parser after a token, with the field parser reset to [f4] *)
-Lemma pcond_after B e R sc' rd' f4 n0 eof adv tok :
+Lemma pcond_after B e sc' rd' f4 :
   sc_inv B sc' rd' -> sc_inv2 B sc' -> rd_ending rd' = e ->
-  n0 <= length R -> split_func (firstn n0 R) eof = SplitTok adv tok -> rest_of sc' rd' = skipn adv R ->
-  ((adv < n0 \/ eof = false) \/ (rest_of sc' rd' = [] /\ sc_err sc' <> None)) ->
-  (exists o, fits_from B R o) ->
   fp_keep_comments f4 = false -> fp_err f4 = false -> (bom_off f4 \/ (rest_of sc' rd' = [] /\ sc_err sc' <> None)) ->
   pcond B e (mkp sc' rd' f4 false false).
 Proof.
-  intros Hinv Hi2 Hend Hn0 Hsf Hrest HD [o Hfit] Hk Hferr Hb.
+  intros Hinv Hi2 Hend Hk Hferr Hb.
   unfold pcond, last_state, p_rest. cbn [p_sc p_rd p_fp p_first p_sc_nil].
   split; [exact Hinv|]. split; [exact Hi2|]. split; [exact Hend|]. split; [reflexivity|]. split; [reflexivity|].
-  split; [exact Hk|]. split; [exact Hferr|]. split; [exact Hb|].
-  destruct HD as [Hm|Hl]; [left|right; exact Hl].
-  exists (o + N.of_nat adv)%N. rewrite Hrest. eapply fits_tok; [exact Hfit|exact Hsf|].
-  rewrite firstn_length_le by exact Hn0. exact Hm.
+  split; [exact Hk|]. split; [exact Hferr|exact Hb].
 Qed.
 
+(* ---- how a run ends with ErrTooLong ------------------------------------------------------------------------------ *)
+(* the first B bytes of the unconsumed input are buffered and splitFunc finds no complete group in them *)
+Definition toolong_at (B : N) (R : bytes) : Prop :=
+  length (firstn (N.to_nat B) R) = N.to_nat B /\
+  (firstn (N.to_nat B) R = [] \/ split_func (firstn (N.to_nat B) R) false = SplitMore).
+
+(* [tpath B R P]: tokens, each cut by splitFunc from a prefix of at most B bytes and each complete, consume the
+   prefix P of R; then ErrTooLong *)
+Inductive tpath (B : N) : bytes -> bytes -> Prop :=
+| tp_here R : toolong_at B R -> tpath B R []
+| tp_tok R n0 eof adv tok P' :
+    n0 <= length R -> (N.of_nat n0 <= B)%N -> split_func (firstn n0 R) eof = SplitTok adv tok ->
+    adv < n0 \/ eof = false -> tpath B (skipn adv R) P' -> tpath B R (firstn adv R ++ P').
+
+Lemma tpath_prefix B R P : tpath B R P -> exists R1, R = P ++ R1.
+Proof.
+  induction 1 as [R _|R n0 eof adv tok P' _ _ _ _ _ [R1 IH]].
+  - exists R. reflexivity.
+  - exists R1. rewrite <- app_assoc, <- IH. symmetry. apply firstn_skipn.
+Qed.
+
+(* under the limit no run ends with ErrTooLong *)
+Lemma fits_tpath B R P : tpath B R P -> forall o, fits_from B R o -> False.
+Proof.
+  induction 1 as [R [Hlen Hmore]|R n0 eof adv tok P' Hn0 HnB Hsf Hm _ IH]; intros o Hfit.
+  - apply (fits_no_toolong B R o (N.to_nat B) Hfit); [apply N2Nat.id|exact Hlen|exact Hmore].
+  - apply (IH (o + N.of_nat adv)%N). eapply fits_tok; [exact Hfit|exact Hsf|].
+    rewrite firstn_length_le by exact Hn0. exact Hm.
+Qed.
+
+(* Parser.Err() after ErrTooLong *)
+Lemma parser_err_toolong sc' rd' f first :
+  sc_err sc' = Some ETooLong ->
+  parser_err (mkp sc' rd' f first (match sc_error sc' with None => true | Some _ => false end)) = Some ETooLong.
+Proof. intros Hs. unfold parser_err, sc_error. cbn [p_sc_nil p_sc p_fp]. rewrite Hs. reflexivity. Qed.
+
 (* ---- all tokens but the first ---------------------------------------------------------------------------------- *)
+(* either the input is consumed to its end - the fields are those of a tokenisation of the rest, Parser.Err() is
+   the end condition - or tokens consume a prefix and the next Scan reports ErrTooLong *)
+Definition pf_result (B : N) (e : ending) (p : parser) (ls0 : list bytes) (tl0 : bytes) : Prop :=
+  (exists LS tl, pf_run p (fields_of ls0 ++ fields_of LS) (end_err tl e) /\
+     (tl0 = [] -> toks (p_rest p) LS tl) /\ (tl0 <> [] -> LS = [] /\ tl = tl0)) \/
+  (exists LS P, pf_run p (fields_of ls0 ++ fields_of LS) (Some ETooLong) /\ tl0 = [] /\ ~ last_state p /\
+     tpath B (p_rest p) P /\ toks P LS []).
+
 Lemma pf_tokens B e : ending_ok e -> forall n p ls0 tl0,
   length (fp_data (p_fp p)) + 2 * length (p_rest p) < n ->
   pcond B e p -> wlines (fp_data (p_fp p)) = (ls0, tl0) -> (tl0 <> [] -> last_state p) ->
-  exists LS tl, pf_run p (fields_of ls0 ++ fields_of LS) (end_err tl e) /\
-    (tl0 = [] -> toks (p_rest p) LS tl) /\ (tl0 <> [] -> LS = [] /\ tl = tl0).
+  pf_result B e p ls0 tl0.
 Proof.
   intros He. induction n as [|n IH]; intros p ls0 tl0 Hn Hc Hw Htl; [lia|].
-  destruct Hc as (Hinv & Hi2 & Hend & Hfirst & Hnil & Hkeep & Hferr & Hbom & Hfits).
+  destruct Hc as (Hinv & Hi2 & Hend & Hfirst & Hnil & Hkeep & Hferr & Hbom).
   pose proof (fp_next_fuel_lines (length (fp_data (p_fp p))) (p_fp p) ls0 tl0 Hkeep Hw (le_n _)) as Hfl.
-  rewrite (fields_of_first ls0).
+  unfold pf_result. rewrite (fields_of_first ls0).
   destruct (first_field ls0) as [[fld ls']|].
   - (* a field of the current token *)
     destruct Hfl as (f' & Hnext & Hw' & Hk' & He' & Hlen').
     destruct (fp_next_fuel_pres _ _ _ _ Hnext) as (_ & Hrb & Hst1 & Hst2).
     pose proof (parser_next_field p fld f' Hnext) as Hpn.
-    destruct (IH (p_with_fp p f') ls' tl0) as (LS & tl & Hrun & Ht1 & Ht2).
+    destruct (IH (p_with_fp p f') ls' tl0) as [(LS & tl & Hrun & Ht1 & Ht2)|(LS & P & Hrun & Ht0 & Hnl0 & Hpath & Htoks)].
     + clear - Hn Hlen'. unfold p_with_fp, p_rest in *. cbn [p_fp p_sc p_rd]. lia.
     + unfold pcond, p_with_fp, last_state, p_rest in *. cbn [p_fp p_sc p_rd p_first p_sc_nil].
       split; [exact Hinv|]. split; [exact Hi2|]. split; [exact Hend|]. split; [exact Hfirst|]. split; [exact Hnil|].
-      split; [exact Hk'|]. split; [congruence|]. split; [|exact Hfits].
+      split; [exact Hk'|]. split; [congruence|].
       destruct Hbom as [Hb|Hl]; [left|right; exact Hl].
       destruct Hb as [Hb|[Hb|Hb]]; [left; congruence|right; left; auto|right; left].
       apply Hst2; [exact Hb|]. destruct (fp_data (p_fp p)); [congruence|cbn [length]; apply Nat.lt_0_succ].
     + exact Hw'.
     + exact Htl.
-    + exists LS, tl. split; [|split; assumption]. cbn [app]. eapply pf_field; eassumption.
+    + left. exists LS, tl. split; [|split; assumption]. cbn [app]. eapply pf_field; eassumption.
+    + right. exists LS, P. split; [cbn [app]; eapply pf_field; eassumption|].
+      split; [exact Ht0|]. split; [exact Hnl0|]. split; [exact Hpath|exact Htoks].
   - (* the current token is exhausted: Scan *)
     destruct Hfl as (f' & Hnext & Herr').
     destruct (fp_next_fuel_pres _ _ _ _ Hnext) as (Hk' & Hrb & Hst1 & Hst2).
@@ -220,7 +258,7 @@ Proof.
       assert (Hnl0 : ~ last_state p).
       { intros [Hr _]. rewrite Hr, firstn_nil in Hsf. discriminate. }
       assert (Htl0 : tl0 = []) by (destruct tl0; [reflexivity|exfalso; apply Hnl0, Htl; discriminate]).
-      destruct Hbom as [Hb|Hl]; [|contradiction]. destruct Hfits as [Hfit|Hl]; [|contradiction].
+      destruct Hbom as [Hb|Hl]; [|contradiction].
       assert (H3 : fp_remove_bom (if fp_started f' then fp_set_remove_bom f' false else f') = false /\
                    fp_keep_comments (if fp_started f' then fp_set_remove_bom f' false else f') = false).
       { destruct (fp_started f') eqn:Es.
@@ -243,28 +281,42 @@ Proof.
       rewrite (parser_next_any_fuel B p1) in Hpn; [|exact Hinv'|rewrite Hp1r; clear - HlR HlR'; lia].
       destruct (wlines tok) as [ls1 tl1] eqn:Hw1.
       assert (Hc1 : pcond B e p1).
-      { apply (pcond_after B e (p_rest p) sc' rd' _ n0 eof adv tok); try assumption; try reflexivity; try congruence.
-        left. left. reflexivity. }
+      { apply (pcond_after B e sc' rd'); try assumption; try reflexivity; try congruence. left. left. reflexivity. }
       assert (Htl1 : tl1 <> [] -> last_state p1).
       { intros Hne. destruct HD as [Hm|Hl]; [|exact Hl]. exfalso.
         destruct (shape_of_mid _ _ _ _ _ Hn0 Hsf Hm) as [ls Hs]. rewrite Hw1 in Hs. injection Hs as _ Hs. congruence. }
-      destruct (IH p1 ls1 tl1) as (LS1 & tl & Hrun & Ht1 & Ht2).
+      destruct (IH p1 ls1 tl1) as [(LS1 & tl & Hrun & Ht1 & Ht2)|(LS1 & P' & Hrun & Ht0 & Hnl1 & Hpath & Htoks)].
       * unfold p1 at 1. cbn [p_fp fp_data]. rewrite Hp1r. clear - Hn HlR' Hlens Hadv Hn0. lia.
       * exact Hc1.
       * exact Hw1.
       * exact Htl1.
-      * exists (ls1 ++ LS1), tl. rewrite fields_of_app. split; [eapply pf_run_eq; eassumption|].
+      * left. exists (ls1 ++ LS1), tl. rewrite fields_of_app. split; [eapply pf_run_eq; eassumption|].
         split; [|intros Hne; contradiction].
         intros _. rewrite HR. apply (toks_step nls tok _ ls1 tl1 LS1 tl Hnl Hh Hw1).
         -- destruct HD as [Hm|[Hl _]]; [left; exact (shape_of_mid _ _ _ _ _ Hn0 Hsf Hm)|right]. rewrite <- Hrest'. exact Hl.
         -- intros E. rewrite <- Hp1r. exact (Ht1 E).
         -- exact Ht2.
+      * (* ErrTooLong later *)
+        destruct HD as [Hm|Hl]; [|contradiction].
+        right. exists (ls1 ++ LS1), (firstn adv (p_rest p) ++ P'). rewrite fields_of_app.
+        split; [eapply pf_run_eq; eassumption|]. split; [exact Htl0|]. split; [exact Hnl0|]. split.
+        -- rewrite Hp1r in Hpath. exact (tp_tok B _ n0 eof adv tok P' Hn0 HnB Hsf Hm Hpath).
+        -- rewrite Hfa, <- app_assoc.
+           destruct (shape_of_mid _ _ _ _ _ Hn0 Hsf Hm) as [ls Hs]. rewrite Hw1 in Hs. injection Hs as -> ->.
+           apply toks_mid; auto.
     + (* no token *)
       destruct Hpost as (Hst & Hcase). rewrite Hfirst in Hst. injection Hst as -> ->.
       destruct Hcase as [(Hne & Htoo & Hlen & Hmore)|(HR & Herr2 & Hrest2)].
-      * exfalso. destruct Hfits as [[o Hfit]|[_ Hl]]; [|contradiction].
-        apply (fits_no_toolong B (p_rest p) o (N.to_nat B) Hfit); [apply N2Nat.id|exact Hlen|exact Hmore].
-      * exists [], tl0. cbn [fields_of flat_map].
+      * (* ErrTooLong *)
+        assert (Hnl0 : ~ last_state p) by (intros [_ Hl]; contradiction).
+        assert (Htl0 : tl0 = []) by (destruct tl0; [reflexivity|exfalso; apply Hnl0, Htl; discriminate]).
+        right. exists [], []. cbn [fields_of flat_map].
+        assert (Hse : sc_error sc' = Some ETooLong) by (unfold sc_error; rewrite Htoo; reflexivity).
+        rewrite Hse, Hnil in Hpn.
+        pose proof (parser_err_toolong sc' rd' f' false Htoo) as Hpe. rewrite Hse in Hpe.
+        split; [rewrite <- Hpe; apply pf_end; exact Hpn|]. split; [exact Htl0|]. split; [exact Hnl0|].
+        split; [apply tp_here; split; assumption|constructor].
+      * left. exists [], tl0. cbn [fields_of flat_map].
         rewrite Hend in Herr2.
         pose proof (parser_err_end e sc' rd' f' false (p_sc_nil p) tl0 He Herr2 Hnil) as Hpe.
         rewrite <- Hpe by (rewrite Herr', Hferr; reflexivity).
